@@ -192,6 +192,23 @@ pub fn spell_str(s: &str, r: &mut Rng) -> String {
                 out.push_str("\\/");
                 continue;
             }
+            // the two-character escapes, where they exist
+            let short = match c {
+                '"' => Some("\\\""),
+                '\\' => Some("\\\\"),
+                '\u{8}' => Some("\\b"),
+                '\u{c}' => Some("\\f"),
+                '\n' => Some("\\n"),
+                '\r' => Some("\\r"),
+                '\t' => Some("\\t"),
+                _ => None,
+            };
+            if let Some(sh) = short {
+                if r.chance(1, 2) {
+                    out.push_str(sh);
+                    continue;
+                }
+            }
             let mut buf = [0u16; 2];
             for u in c.encode_utf16(&mut buf) {
                 if r.chance(1, 2) {
